@@ -208,13 +208,13 @@ def record_one(job):
     nfill = job.get("nfill", 14)
     if cfg["kind"] == "Bin":
         # always: the last float below high and low itself (the two ends of the binned range)
-        ps += [(math.nextafter(cfg["high"], -math.inf), True), (cfg["low"], True)]
-    for step in range(nfill + (4 if cfg["kind"] == "Bin" else 0)):
-        xid = rng.randrange(len(ps)) if step < nfill else len(ps) - 1 - (step - nfill) % 2
+        ps += [(cfg["high"], True), (math.nextafter(cfg["high"], -math.inf), True), (cfg["low"], True)]
+    for step in range(nfill + (6 if cfg["kind"] == "Bin" else 0)):
+        xid = rng.randrange(len(ps)) if step < nfill else len(ps) - 1 - (step - nfill) % 3
         x, near = ps[xid]
         vec = rng.random() < 0.35     # the same probe through the vectorised path (a one-row batch)
         if step >= nfill:
-            vec = step - nfill >= 2     # (the two ends: once row-wise, once vectorised)
+            vec = step - nfill >= 3     # (the ends: once row-wise, once vectorised)
         f32 = vec and rng.random() < 0.4 and not math.isnan(x) and abs(x) < 1e30
         if f32:
             # ... as a float32 array: the value the library receives is the float32 nearest to the probe
